@@ -15,11 +15,27 @@ PATTERNS = {
     "2323": (2, 3, 2, 3, 2),
     "1213": (1, 2, 1, 3, 2),
     "3122": (3, 1, 2, 2, 1),
+    "big": (12, 33, 2, 5, 2),
+}
+
+# label families.  "std": a1, a2 ...  "tricky": labels whose CONTENT collides with other things an
+# implementation might look at - items equal to the letters / names of other dimensions, items shared
+# between dimensions, items that are prefixes of each other, the empty string, None-/bool-/nan-like
+# strings, integers next to their string forms.  Index-aligned with "std" (item k of a dimension is
+# item k in either family), at most 3 items per dimension.
+TRICKY = {
+    "a": ("b", "Beta", "ab"),
+    "b": ("a", "b", "ab"),
+    "c": ("", "c1", "c10"),
+    "d": (1, 10, "1"),
+    "e": ("None", "True", "nan"),
 }
 
 
-def items_for(pattern, letters=LETTERS):
+def items_for(pattern, letters=LETTERS, family="std"):
     lens = PATTERNS[pattern] if isinstance(pattern, str) else pattern
+    if family == "tricky":
+        return {l: tuple(TRICKY[l][: lens[LETTERS.index(l)]]) for l in letters}
     return {l: tuple(f"{l}{i+1}" for i in range(lens[LETTERS.index(l)])) for l in letters}
 
 
@@ -177,3 +193,38 @@ def flodym_array(letters, items, fn, provenance="C", cls=None, **kw):
     ds = make_dimset(letters, items)
     v = ndarray_for(letters, items, fn, provenance)
     return cls(dims=ds, values=v, **kw)
+
+
+GENESIS = ("ctor", "parameter", "flow", "stockarray", "deepcopy", "pickle", "copy", "model_copy", "cast_self", "getitem_all")
+
+
+def regenesis(arr, kind):
+    """the same array (same dims, same entries) obtained through another public route: as an instance of
+    one of the subclasses, or as a copy / pickle round trip / trivial cast or slice of the original"""
+    import copy
+    import pickle
+
+    import flodym
+
+    if kind == "ctor":
+        return arr
+    if kind == "parameter":
+        return flodym.Parameter(dims=arr.dims, values=arr.values, name="par")
+    if kind == "stockarray":
+        return flodym.StockArray(dims=arr.dims, values=arr.values, name="sto")
+    if kind == "flow":
+        p1, p2 = flodym.Process(name="sysenv", id=0), flodym.Process(name="use", id=1)
+        return flodym.Flow(dims=arr.dims, values=arr.values, from_process=p1, to_process=p2, name="sysenv => use")
+    if kind == "deepcopy":
+        return copy.deepcopy(arr)
+    if kind == "pickle":
+        return pickle.loads(pickle.dumps(arr))
+    if kind == "copy":
+        return arr.copy()
+    if kind == "model_copy":
+        return arr.model_copy(deep=True)
+    if kind == "cast_self":
+        return arr.cast_to(arr.dims)
+    if kind == "getitem_all":
+        return arr[{}] if arr.dims.ndim else arr
+    raise ValueError(kind)
